@@ -1153,7 +1153,11 @@ class MainTransformer(object):
             parent = chain[-1] if chain else None
             if (block and parent):
                 virtual_annotation = block.annotations.get(ANN_VFUNC)
-                if virtual_annotation:
+                if virtual_annotation and not node.is_method:
+                    # Only a method can invoke a virtual method of its type
+                    message.warn_node(node,
+                        "'%s' annotation is only valid on methods" % (ANN_VFUNC, ))
+                elif virtual_annotation:
                     invoker_name = virtual_annotation[0]
                     matched = False
                     for vfunc in parent.virtual_methods:
